@@ -73,6 +73,15 @@ type c04Scenario struct {
 	// library's own codec for that message type. It is used only to recognise
 	// vacuous alterations (the altered bytes decode to the very same message).
 	canon map[string]func([]byte) ([]byte, error)
+	// skipCorrupt: party positions that are not enumerated as the deviating party, with the reason.
+	skipCorrupt map[sim.ID]string
+	// costlyRun: one run costs tens of seconds; the quick tier then does without the
+	// alternative inventories (own-other-coins cells are thorough-tier only).
+	costlyRun bool
+	// c07Pos: party positions (index into the sorted party list) whose random stream
+	// C07 varies; nil = 0,1,2. Positions that contribute no randomness by design
+	// (a next-only holder in a redistribution) are left out.
+	c07Pos []string
 }
 
 func canonOf[T any]() func([]byte) ([]byte, error) {
@@ -338,7 +347,11 @@ func scenarioSign[G algebra.PrimeGroupElement[G, S], S algebra.PrimeFieldElement
 					if ns == "A" {
 						mu.Lock()
 						accepted++
-						if verr := fl.refVerify(shards[agg].PublicKeyValue(), msg, sig); verr != nil {
+						verify := fl.refVerify
+						if verify == nil {
+							verify = fl.libVerify // BLS: no independent pairing implementation (semi-independent oracle)
+						}
+						if verr := verify(shards[agg].PublicKeyValue(), msg, sig); verr != nil {
 							safety = &harness.Violation{Class: "invalid-signature-released", Site: name, Detail: fmt.Sprintf("the aggregator returned a signature that fails independent verification: %v", verr)}
 						}
 						mu.Unlock()
@@ -499,7 +512,7 @@ func inventory(t *testing.T, sc *c04Scenario, seed sim.Seed) ([]wireMsg, error) 
 }
 
 // c04Cells enumerates the cells of a scenario: every corrupt party position.
-func c04Cells(t *testing.T, sc *c04Scenario, seed sim.Seed) ([]map[string]string, error) {
+func c04Cells(t *testing.T, sc *c04Scenario, seed sim.Seed, withAlts bool) ([]map[string]string, error) {
 	log, err := inventory(t, sc, seed)
 	if err != nil {
 		return nil, err
@@ -515,6 +528,9 @@ func c04Cells(t *testing.T, sc *c04Scenario, seed sim.Seed) ([]map[string]string
 	}
 	ps = sortedIDs(ps)
 	for _, c := range ps {
+		if _, skip := sc.skipCorrupt[c]; skip {
+			continue
+		}
 		for _, ce := range enumerateCells(log, c, "A", sc.only, sc.maxLeaves) {
 			p := ce.t.params()
 			p["scenario"] = sc.name
@@ -534,7 +550,7 @@ func c04Cells(t *testing.T, sc *c04Scenario, seed sim.Seed) ([]map[string]string
 		}
 		for _, an := range []string{"own-other-coins", "own-other-input"} {
 			ap, ok := alts[an]
-			if !ok {
+			if !ok || !withAlts {
 				continue
 			}
 			alog, err := altInventory(t, sc, seed, an+fmt.Sprint(c), ap)
@@ -819,8 +835,11 @@ func rootSeedOf(rc *harness.RunCtx) int64 {
 func c04Workload(name string, quickCells int) harness.Workload {
 	return harness.Workload{Name: "cells-" + name, Run: RunC04Cell,
 		EnumerateT: func(t *testing.T, tier string, seedInt int64, _ sim.Seed) ([]map[string]string, error) {
+			if tier != "thorough" && quickCells == 0 {
+				return nil, nil // thorough-only scenario (one run costs about a minute)
+			}
 			sc := c04Scenarios[name]()
-			cells, err := c04Cells(t, sc, c04Seed(sim.RootSeed(seedInt).Sub("C04"), sc.name))
+			cells, err := c04Cells(t, sc, c04Seed(sim.RootSeed(seedInt).Sub("C04"), sc.name), tier == "thorough" || !sc.costlyRun)
 			if err != nil {
 				return nil, err
 			}
@@ -857,6 +876,15 @@ func C04Workloads() []harness.Workload {
 		c04Workload("lindell22-bip340", 40),
 		c04Workload("dkls23-bbot", 12),
 		c04Workload("dkls23-softspoken", 12),
+		c04Workload("aor", 24),
+		c04Workload("redistribute", 40),
+		c04Workload("redistribute-anchored", 24),
+		c04Workload("lindell17-sign", 16),
+		c04Workload("lindell17-sign-swapped", 8),
+		c04Workload("lindell17-dkg", 4),
+		c04Workload("lindell17-dkg3", 0),
+		c04Workload("boldyreva-short-pop", 12),
+		c04Workload("boldyreva-long-aug", 8),
 	}
 }
 
